@@ -70,6 +70,22 @@ def hyp(u, v):
 
 
 USER_FUNCS = {"softplus": softplus, "mix": mix, "hyp": hyp}
+
+
+# the same NAMES bound to different callables (a user who edits a function and re-creates the model in the same session)
+def _softplus_b(x, a):
+    return np.tanh(a * x) + 0.1 * x
+
+
+def _mix_b(u, v, w):
+    return w * u + 0.5 * (1 - w) * v * v
+
+
+def _hyp_b(u, v):
+    return 0.5 * np.cos(u) + 0.25 * v
+
+
+USER_BINDINGS = {"A": USER_FUNCS, "B": {"softplus": _softplus_b, "mix": _mix_b, "hyp": _hyp_b}}
 USER_ARITY = {"softplus": 2, "mix": 3, "hyp": 2}
 
 
@@ -156,8 +172,12 @@ def prefix(tree, enc) -> list[str]:
     return out
 
 
-def plain(tree, env):
-    """generator-side float evaluation (conditioning guards only; never used as a reference)"""
+def plain(tree, env, funcs=None):
+    """the harness's own float evaluation of a tree: conditioning guards of the generators, and the reference residual of the
+    context-rebinding oracles (user functions taken from `funcs`, the INTENDED binding)"""
+    funcs = USER_FUNCS if funcs is None else funcs
+    if funcs is not USER_FUNCS:
+        return _plain_with(tree, env, funcs)
     k = tree[0]
     if k == "c": return tree[1]
     if k == "t": return env[(tree[1], tree[2])]
@@ -181,6 +201,17 @@ def plain(tree, env):
     if k == "maximum": return max(a, b)
     if k == "minimum": return min(a, b)
     raise ValueError(k)
+
+
+def _plain_with(tree, env, funcs):
+    """`plain` with another binding of the user function names"""
+    def sub(t):
+        if t[0] in ("c", "t"):
+            return t
+        if t[0] in funcs:
+            return ("c", float(funcs[t[0]](*[plain(sub(c), env) for c in t[1:]])))
+        return (t[0],) + tuple(sub(c) for c in t[1:])
+    return plain(sub(tree), env)
 
 
 def has_token(tree) -> bool:
@@ -418,7 +449,7 @@ def impl_tree(case):
     data = np.array(case["data"], dtype=float)
     try:
         c = Context(factory_for(mode), [e], eid_to_wrts={0: tuple(wrt)}, qid_to_logly={i: bool(l) for i, l in enumerate(case["logly"])},
-                    context=(dict(USER_FUNCS) if uses_user(case["tree"]) else None))
+                    context=(dict(USER_BINDINGS[case.get("binding", "A")]) if uses_user(case["tree"]) else None))
         with np.errstate(all="ignore"):
             d, v = c.eval_to_arrays(data, case["off"])
     except TypeError as ex:
@@ -500,13 +531,26 @@ def oracle_tree(case):
     _, v, d, e, wrt = r
     data0 = np.array(case["data"], dtype=float)
     off = case["off"]
-    pe = PlainEquator([e], context=(dict(USER_FUNCS) if uses_user(case["tree"]) else None))
     logly = case["logly"]
     mode = case["mode"]
+    if case.get("own_reference"):
+        # reference = the harness's own evaluation of the tree with the INTENDED callables (not irispie's residual function)
+        funcs = USER_BINDINGS[case.get("binding", "A")]
+        tree = tuplify(case["tree"]) if isinstance(case["tree"], list) else case["tree"]
+        toks = sorted(tokens_of(tree))
 
-    def f(arr):
-        with np.errstate(all="ignore"):
-            return float(pe.eval(arr, off)[0])
+        def f(arr):
+            with np.errstate(all="ignore"):
+                try:
+                    return float(plain(tree, {(q, s): float(arr[q, off + s]) for q, s in toks}, funcs))
+                except (ValueError, ZeroDivisionError, OverflowError):
+                    return float("nan")
+    else:
+        pe = PlainEquator([e], context=(dict(USER_BINDINGS[case.get("binding", "A")]) if uses_user(case["tree"]) else None))
+
+        def f(arr):
+            with np.errstate(all="ignore"):
+                return float(pe.eval(arr, off)[0])
     bad, skipped = [], 0
     cols = [0] if mode != "nf" else [0, 1]
     for i, w in enumerate(wrt):
@@ -569,6 +613,45 @@ def listify(t):
 
 def tuplify(t):
     return tuple(tuplify(x) if isinstance(x, list) else x for x in t)
+
+
+def check_rebinding_tree(ctx: Ctx, case):
+    """several Contexts in one process for the same equation text and the same user function names bound to different callables
+    (case["sequence"] of bindings); every one is judged against finite differences of the harness's OWN evaluation of the tree with
+    the callables that were handed in"""
+    tree = tuplify(case["tree"]) if isinstance(case["tree"], list) else case["tree"]
+    for step, b in enumerate(case["sequence"]):
+        c = dict(case, tree=tree, binding=b, own_reference=True)
+        try:
+            bad, r, skipped = oracle_tree(c)
+        except Exception:
+            ctx.count("oracle:rebinding-raised")
+            continue
+        ctx.count("oracle:rebinding-tree-evaluations")
+        ctx.count("oracle:fd-unreliable-entries", skipped)
+        if r[0] == "ok" and bad:
+            ctx.fail("context-rebinding:tree", dict(case, tree=listify(tree)),
+                     f"{render(tree, names_for(case['nq']))} mode={case['mode']}: step {step} of bindings {case['sequence']} (binding {b}): "
+                     f"AD differs from the equation evaluated with the callables handed in: {bad[:2]}")
+            return
+    ctx.evaluations += 1
+
+
+def check_rebinding_model(ctx: Ctx, case):
+    """the same model source parsed again with another binding of its context names: systemize() against the harness's own residuals"""
+    for step, b in enumerate(case["sequence"]):
+        c = dict(case, binding=b)
+        try:
+            m = build_model(c)
+        except Exception as ex:
+            ctx.count("oracle:rebinding-model-build-raised:" + type(ex).__name__)
+            return
+        before = len(ctx.failures)
+        oracle_systemize(ctx, dict(c, kind="model-rebinding"), m, own_reference=True, prefix="context-rebinding:")
+        ctx.count("oracle:rebinding-model-evaluations")
+        if len(ctx.failures) > before:
+            return
+    ctx.evaluations += 1
 
 
 def check_tree_oracle(ctx: Ctx, case, bad_rules: set):
@@ -725,6 +808,9 @@ def run_trees(ctx: Ctx, bad_rules: set, oracle_only=False, scale=1):
         ctx.nontriv(("tree-user", tuple(sorted(kinds_in(c["tree"]))), c["mode"], tuple(c["logly"])))
         check_tree_oracle(ctx, c, bad_rules)
     ctx.evaluations += len(usr)
+    # the same equation text differentiated again with the same function NAMES bound to other callables, and back
+    for c in usr[: ctx.n(60, 600) * scale]:
+        check_rebinding_tree(ctx, dict(c, kind="tree-rebinding", sequence=["A", "B", "A"]))
     if usr:
         ctx.sample({"stream": "tree-user", "equation": render(usr[0]["tree"], names_for(usr[0]["nq"])), "mode": usr[0]["mode"]})
     for c in directed + poly + gen:
@@ -831,7 +917,8 @@ def gen_model(rng, bad_rules: set, user=False):
         sh = f"e{i}" if f"e{i}" in shocks else None
         teqs.append((x, rhs(allowed, sh)))
     for i, y in enumerate(ys):
-        allowed = [(z, s) for z in xs for s in (0, 0, -1)] + [(p, 0) for p in ps]
+        # transition variables are read at lags as deep as, and deeper than, the transition block uses them (growth-rate observables)
+        allowed = [(z, s) for z in xs for s in (0, 0, -1, -max_lag[z], -max_lag[z] - 1)] + [(p, 0) for p in ps]
         meqs.append((y, rhs(allowed, mshocks[i])))
     inv = {v: k for k, v in qid.items()}
     nm = [inv[i] for i in range(nq)]
@@ -883,7 +970,7 @@ def build_model(case):
     import irispie as ir
     kw = {}
     if case.get("context"):
-        kw["context"] = {n: USER_FUNCS[n] for n in case["context"]}
+        kw["context"] = {n: USER_BINDINGS[case.get("binding", "A")][n] for n in case["context"]}
     if case.get("flat"):
         kw["flat"] = True
     m = ir.Simultaneous.from_string(case["source"], **kw)
@@ -909,7 +996,7 @@ def compare_matrix(ctx, site, case, name, analytic, fd_fun, shape_note=""):
     return not bad
 
 
-def oracle_systemize(ctx: Ctx, case, m=None):
+def oracle_systemize(ctx: Ctx, case, m=None, own_reference=False, prefix=""):
     from irispie.quantities import QuantityKind as QK
     m = m or build_model(case)
     try:
@@ -918,7 +1005,7 @@ def oracle_systemize(ctx: Ctx, case, m=None):
         ctx.count("oracle:systemize-rejected")      # an equation with no Atom rule: rejected, allowed by the property
         return m
     except Exception as ex:
-        ctx.fail("systemize:raised", case, f"systemize() raised {type(ex).__name__}: {str(ex)[:200]} on a valid model")
+        ctx.fail(prefix + "systemize:raised", case, f"systemize() raised {type(ex).__name__}: {str(ex)[:200]} on a valid model")
         return m
     inv = m._invariant
     d = inv.dynamic_descriptor
@@ -935,6 +1022,21 @@ def oracle_systemize(ctx: Ctx, case, m=None):
     def resid(a):
         with np.errstate(all="ignore"):
             return np.array([float(x) for x in pe.eval(a, off)])
+    if own_reference:
+        # reference = the harness's own evaluation of every equation's xtring with the INTENDED callables
+        funcs = USER_BINDINGS[case.get("binding", "A")]
+        trees = {eid: tree_of_xtring(e.xtring) for eid, e in eqs.items()}
+        toks = {eid: sorted(tokens_of(t)) for eid, t in trees.items()}
+
+        def resid(a):
+            out = np.full(max(eqs) + 1, np.nan)
+            with np.errstate(all="ignore"):
+                for eid, t in trees.items():
+                    try:
+                        out[eid] = plain(t, {(q, s_): float(a[q, off + s_]) for q, s_ in toks[eid]}, funcs)
+                    except (ValueError, ZeroDivisionError, OverflowError):
+                        pass
+            return out
 
     cache = {}
     def partial(eid, tok):
@@ -964,18 +1066,32 @@ def oracle_systemize(ctx: Ctx, case, m=None):
     # A: column of tau when tau is in the transition vector; B: column of tau shifted by +1 when tau is not in the vector
     lag_cols = [((q, sft - 1) if (q, sft - 1) not in tv else None) for (q, sft) in tv]
     A, B = s.A[:nT, :], s.B[:nT, :]
-    ok &= compare_matrix(ctx, "systemize:A", case, "A", A, expected(sv.transition_eids, tv))
-    ok &= compare_matrix(ctx, "systemize:B", case, "B", B, expected(sv.transition_eids, lag_cols))
-    ok &= compare_matrix(ctx, "systemize:D", case, "D", s.D[:nT, :], expected(sv.transition_eids, [(t.qid, t.shift) for t in sv.transition_shocks]))
+    ok &= compare_matrix(ctx, prefix + "systemize:A", case, "A", A, expected(sv.transition_eids, tv))
+    ok &= compare_matrix(ctx, prefix + "systemize:B", case, "B", B, expected(sv.transition_eids, lag_cols))
+    ok &= compare_matrix(ctx, prefix + "systemize:D", case, "D", s.D[:nT, :], expected(sv.transition_eids, [(t.qid, t.shift) for t in sv.transition_shocks]))
     if nM:
-        ok &= compare_matrix(ctx, "systemize:F", case, "F", s.F, expected(sv.measurement_eids, [(t.qid, t.shift) for t in sv.measurement_variables]))
-        ok &= compare_matrix(ctx, "systemize:G", case, "G", s.G, expected(sv.measurement_eids, tv))
-        ok &= compare_matrix(ctx, "systemize:J", case, "J", s.J, expected(sv.measurement_eids, [(t.qid, t.shift) for t in sv.measurement_shocks]))
+        ok &= compare_matrix(ctx, prefix + "systemize:F", case, "F", s.F, expected(sv.measurement_eids, [(t.qid, t.shift) for t in sv.measurement_variables]))
+        ok &= compare_matrix(ctx, prefix + "systemize:G", case, "G", s.G, expected(sv.measurement_eids, tv))
+        ok &= compare_matrix(ctx, prefix + "systemize:J", case, "J", s.J, expected(sv.measurement_eids, [(t.qid, t.shift) for t in sv.measurement_shocks]))
     # every variable occurrence of every equation must have a home (no derivative silently dropped)
     for eid in sv.transition_eids:
         for t in eqs[eid].incidence:
             if kind[t.qid] in QK.TRANSITION_VARIABLE and (t.qid, t.shift) not in tv and (t.qid, t.shift + 1) not in tv:
-                ctx.fail("systemize:uncovered-occurrence", case, f"equation {eid} token {tuple(t)} has no column in A or B")
+                ctx.fail(prefix + "systemize:uncovered-occurrence", case, f"equation {eid} token {tuple(t)} has no column in A or B")
+    # measurement equations: a measurement variable lives in F, a transition variable (at ANY lag) in G, a measurement shock in J;
+    # an occurrence with a non-zero derivative and no column is a derivative silently dropped from the system
+    homes = {"F": [(t.qid, t.shift) for t in sv.measurement_variables], "G": tv, "J": [(t.qid, t.shift) for t in sv.measurement_shocks]}
+    for eid in sv.measurement_eids:
+        for t in eqs[eid].incidence:
+            tok = (t.qid, t.shift)
+            where = "F" if kind[t.qid] in QK.MEASUREMENT_VARIABLE else "G" if kind[t.qid] in QK.TRANSITION_VARIABLE else \
+                "J" if kind[t.qid] in QK.MEASUREMENT_SHOCK else None
+            if where is None or tok in homes[where]:
+                continue
+            fd, err = partial(eid, tok)
+            if math.isfinite(fd) and math.isfinite(err) and abs(fd) > 1e-6 + 10 * err:
+                ctx.fail(prefix + "systemize:uncovered-occurrence", case,
+                         f"measurement equation {eid}: d residual / d token {tok} = {fd:.6g} (finite differences) but the token has no column in {where}")
     # dynamic identity rows: xi_t[i] = xi_{t-1}[j] with tv[j] = tv[i] shifted by +1
     dA, dB = s.A[nT:, :], s.B[nT:, :]
     for r in range(dA.shape[0]):
@@ -983,9 +1099,9 @@ def oracle_systemize(ctx: Ctx, case, m=None):
         good = len(ia) == 1 and len(ib) == 1 and dA[r, ia[0]] == 1 and dB[r, ib[0]] == -1 and \
             tv[ib[0]] == (tv[ia[0]][0], tv[ia[0]][1] + 1)
         if not good:
-            ctx.fail("systemize:dynid", case, f"dynamic identity row {r} is not xi_t[i] = xi_(t-1)[j]")
+            ctx.fail(prefix + "systemize:dynid", case, f"dynamic identity row {r} is not xi_t[i] = xi_(t-1)[j]")
     if dA.shape[0] + nT != len(tv):
-        ctx.fail("systemize:dynid", case, "number of rows != length of the transition vector")
+        ctx.fail(prefix + "systemize:dynid", case, "number of rows != length of the transition vector")
     ctx.count("oracle:systemize-models")
     return m
 
@@ -1399,6 +1515,8 @@ def run_forward_models(ctx: Ctx, scale=1):
         oracle_systemize(ctx, mc, m)
         oracle_steady(ctx, mc, m)
         oracle_stacked(ctx, mc, m)
+        if case.get("context"):
+            check_rebinding_model(ctx, dict(mc, sequence=["B", "A"]))
 
 
 def run_models(ctx: Ctx, bad_rules: set, oracle_only=False, scale=1):
@@ -1430,6 +1548,8 @@ def run_models(ctx: Ctx, bad_rules: set, oracle_only=False, scale=1):
             ctx.sample({"stream": "model", "source": case["source"], "assign": case["assign"]})
         oracle_steady(ctx, case, m)
         oracle_stacked(ctx, case, m)
+        if case.get("context"):
+            check_rebinding_model(ctx, dict(case, sequence=["B", "A"]))      # binding A was built just above
         if not oracle_only:
             try:
                 ls, im = maps_lines(ctx, case, m)
@@ -1459,6 +1579,11 @@ def replay_case(ctx: Ctx, case, bad_rules=None):
         c = dict(case, tree=tuplify(case["tree"]))
         check_tree_oracle(ctx, c, bad_rules)
         ctx.evaluations += 1
+    elif case.get("kind") == "tree-rebinding":
+        check_rebinding_tree(ctx, case)
+    elif case.get("kind") == "model-rebinding":
+        seq = case.get("sequence") or ["A", "B", "A"]
+        check_rebinding_model(ctx, dict(case, sequence=(["A"] + seq if seq[0] != "A" else seq)))
     elif case.get("kind") == "forward-model":
         oracle_simulate_stacked(ctx, case)
         ctx.evaluations += 1
